@@ -317,15 +317,16 @@ impl FormatSpec {
         sep: char,
         disp_digit_cnt: i32,
     ) -> String {
-        // Don't add separators to the floating decimal point of numbers
-        let mut parts = magnitude_str.splitn(2, '.');
-        let magnitude_int_str = parts.next().unwrap().to_string();
-        let dec_digit_cnt = magnitude_str.len() as i32 - magnitude_int_str.len() as i32;
+        // Don't add separators to the fraction, exponent or percent sign of numbers
+        let int_end = magnitude_str
+            .find(&['.', 'e', 'E', '%'][..])
+            .unwrap_or(magnitude_str.len());
+        let (magnitude_int_str, rest) = magnitude_str.split_at(int_end);
+        let dec_digit_cnt = rest.len() as i32;
         let int_digit_cnt = disp_digit_cnt - dec_digit_cnt;
-        let mut result = FormatSpec::separate_integer(magnitude_int_str, inter, sep, int_digit_cnt);
-        if let Some(part) = parts.next() {
-            result.push_str(&format!(".{part}"))
-        }
+        let mut result =
+            FormatSpec::separate_integer(magnitude_int_str.to_string(), inter, sep, int_digit_cnt);
+        result.push_str(rest);
         result
     }
 
@@ -390,7 +391,14 @@ impl FormatSpec {
     fn get_separator_interval(&self) -> usize {
         match self.format_type {
             Some(FormatType::Binary | FormatType::Octal | FormatType::Hex(_)) => 4,
-            Some(FormatType::Decimal | FormatType::Number(_) | FormatType::FixedPoint(_)) => 3,
+            Some(
+                FormatType::Decimal
+                | FormatType::Number(_)
+                | FormatType::FixedPoint(_)
+                | FormatType::Exponent(_)
+                | FormatType::GeneralFormat(_)
+                | FormatType::Percentage,
+            ) => 3,
             None => 3,
             _ => panic!("Separators only valid for numbers!"),
         }
